@@ -25,7 +25,7 @@ func init() {
 }
 
 func c08Shapes(tier string) [][]int {
-	s := [][]int{{4}, {2, 3}, {3, 1}, {1, 4}, {2, 3, 4}, {3, 1, 2}, {2, 3, 2, 2}, {2, 2, 3, 3}}
+	s := [][]int{{4}, {2, 3}, {3, 1}, {1, 4}, {2, 3, 4}, {3, 1, 2}, {1, 3, 2}, {2, 3, 1}, {2, 3, 2, 2}, {2, 2, 3, 3}}
 	if tier == "thorough" {
 		s = append(s, []int{1}, []int{5, 4}, []int{3, 3, 3}, []int{1, 1, 3}, []int{4, 2, 1}, []int{2, 3, 4, 5}, []int{3, 2, 1, 2}, []int{1, 2, 3, 1})
 	}
